@@ -594,6 +594,17 @@ Definition url_to_parts (sc : scfg) (url : list N) : option path :=
   then Some (filter (fun c => negb (bytes_eqb c [])) (split_slash (skipn (length (s_origin sc)) url)))
   else None.
 
+(* the rewrite block: PREFIX/x-X_y-Y_z-Z -> PREFIX/x-X/y-Y/z-Z (PREFIX non-empty) *)
+Definition rewrite_target (parts : path) : path :=
+  match rev parts with
+  | name :: ((_ :: _) as rh) =>
+      match flat_axes name with
+      | Some (a, b, c) => rev rh ++ [a; b; c]
+      | None => parts
+      end
+  | _ => parts
+  end.
+
 Section SERVE.
 Variable B : Type.
 Variable empty : B.
@@ -603,44 +614,37 @@ Definition file_at (t : fs B) (p : path) : option B :=
   if existsb is_dotdot p then None else
   match lookup B t p with Some (File b) => Some b | _ => None end.
 
+(* the server after URL parsing: request path components, method, range *)
+Definition serve_parts (sc : scfg) (t : fs B) (parts : path) (m : meth) (rg : option (N * N)) : resp B :=
+  let target := if s_rewrite sc then rewrite_target parts else parts in
+  let full := s_root sc ++ target in
+  let found : option (bool * B) :=
+    match (if s_gzip_static sc then file_at t (with_gz full) else None) with
+    | Some z => Some (true, z)
+    | None => match file_at t full with Some d => Some (false, d) | None => None end
+    end in
+  match found with
+  | None => Resp 404 false empty
+  | Some (enc, d) =>
+      match m with
+      | HEAD => Resp 200 enc empty
+      | GET =>
+          match rg with
+          | None => Resp 200 enc d
+          | Some (a, b) =>
+              if b <? a then Resp 200 enc d            (* malformed range: ignored *)
+              else match slice d a b with
+                   | Some s => Resp 206 enc s
+                   | None => Resp 416 false empty
+                   end
+          end
+      end
+  end.
+
 Definition serve (sc : scfg) (t : fs B) : server B :=
   fun _ rq =>
   match url_to_parts sc (r_url rq) with
   | None => ConnErr
-  | Some parts =>
-      let target :=
-        if s_rewrite sc then
-          match rev parts with
-          | name :: ((_ :: _) as rh) =>
-              match flat_axes name with
-              | Some (a, b, c) => rev rh ++ [a; b; c]
-              | None => parts
-              end
-          | _ => parts
-          end
-        else parts in
-      let full := s_root sc ++ target in
-      let found : option (bool * B) :=
-        match (if s_gzip_static sc then file_at t (with_gz full) else None) with
-        | Some z => Some (true, z)
-        | None => match file_at t full with Some d => Some (false, d) | None => None end
-        end in
-      match found with
-      | None => Resp 404 false empty
-      | Some (enc, d) =>
-          match r_meth rq with
-          | HEAD => Resp 200 enc empty
-          | GET =>
-              match r_range rq with
-              | None => Resp 200 enc d
-              | Some (a, b) =>
-                  if b <? a then Resp 200 enc d            (* malformed range: ignored *)
-                  else match slice d a b with
-                       | Some s => Resp 206 enc s
-                       | None => Resp 416 false empty
-                       end
-              end
-          end
-      end
+  | Some parts => serve_parts sc t parts (r_meth rq) (r_range rq)
   end.
 End SERVE.
